@@ -6,7 +6,8 @@
    How tokio schedules the readers, the authorisation actor and the writer is not modelled: the
    order in which the harness sees the writes and the event of a stream is observed, and the
    room-modified part of the statement is only observed on the real code (CRoom cases).
-   C18_full (proofs/C18P.v) is the statement at full strength; the faithful model refutes it. *)
+   C18_full (proofs/C18P.v) is the statement at full strength; no refutation of it is left that the real
+   code reproduces (all known classes were repaired); what is proved is C18_data_holds_partial. *)
 From DV Require Import Run_C09 C09P Run_C18 C18P.
 
 (* (1) the source of events: a recompute reports every row that is dirty when it runs ... *)
@@ -56,14 +57,25 @@ Theorem C18_stream_holds_partial :
   run_trace w_stream = [TW []; TW [(1%N, 1%N, 0)]; TE [(1%N, 1%N, 0)]; TQ].
 Proof. exact stream_holds. Qed.
 Print Assumptions C18_stream_holds_partial.
-(* what remains refuted: a write that leaves a changed key unmarked (C09 class 6: a synchronised
-   version under another entity) is committed and never announced *)
-Theorem C18_unmarked_refuted : spec_C18 w_unmarked (run_C18 w_unmarked) = false /\ known_C18 w_unmarked = [3].
-Proof. exact unmarked_refuted. Qed.
-Print Assumptions C18_unmarked_refuted.
-Theorem C18_full_refuted : ~ C18_full.
-Proof. exact full_refuted. Qed.
-Print Assumptions C18_full_refuted.
+(* the former witness of an unmarked key (a synchronised version under another entity, repaired by
+   9b19d99) is announced *)
+Theorem C18_unmarked_holds_partial : spec_C18 w_unmarked (run_C18 w_unmarked) = true /\ known_C18 w_unmarked = [].
+Proof. exact unmarked_holds. Qed.
+Print Assumptions C18_unmarked_holds_partial.
+(* the former witness of C09 class 7 (an edge tombstone replaced under another source entity,
+   repaired by de0967d) is announced *)
+Theorem C18_edge_tombstone_holds_partial : spec_C18 w_edge_tombstone18 (run_C18 w_edge_tombstone18) = true /\ known_C18 w_edge_tombstone18 = [].
+Proof. exact edge_tombstone_holds. Qed.
+Print Assumptions C18_edge_tombstone_holds_partial.
+
+(* (5) no class hypothesis left: every program of mutate / delete calls, ingested batches, recompute
+   requests and streams whose writes stay inside the envelope of C09_all_writes_cover (a local
+   deletion names one stored row; no edge tombstone already dated at the instant of a local reference
+   deletion) announces every changed key by the time each promising call is over *)
+Theorem C18_data_holds_partial : forall t0 prog, prog_env (init t0) prog ->
+  spec_C18 (CSeq t0 prog) (run_C18 (CSeq t0 prog)) = true.
+Proof. exact seq_holds_env. Qed.
+Print Assumptions C18_data_holds_partial.
 
 Example C18_nonvacuous :
   known_C18 w_seq = [] /\ spec_C18 w_seq (run_C18 w_seq) = true /\
